@@ -148,6 +148,16 @@ def gen_spec(rng, quals):
         sim = [q for q in quals if q.endswith(".SIMUS")]
         if sim:
             return {"kind": "class", "qual": sim[0]}
+    if t < 0.03:
+        # a threshold filter that may let nothing through, followed by a function filter whose function looks at the
+        # criterion as a whole (and cannot be evaluated on an empty one), then a decision maker
+        f1 = T.config(rng, "FilterGT")
+        f1["conditions"] = [["C0", rng.choice([4.0, 6.0, 9.5])]]
+        f1["ignore_missing"] = True
+        f2 = T.config(rng, "Filter")
+        f2["conditions"] = [["C0", "near_best"]]
+        f2["ignore_missing"] = True
+        return {"kind": "pipe", "steps": [f1, f2], "dmaker": {"name": rng.choice(["ratio", "refpoint"])}}
     if t < 0.10:
         # the objective inverters (their output depends on nothing but the matrix, zeros included)
         return {"kind": "tf", "cfg": T.config(rng, rng.choice(["InvertMinimize", "NegateMinimize"]))}
